@@ -5,7 +5,7 @@ GUARD (a gate really gates, on the *server* capability set), control-dependence 
 WHO (operations are built only by their builders), OKDOM (nothing sent when building failed).
 """
 import re
-from vlib import facts as F, thir as T
+from vlib import facts as F, thir as T, absint as A
 from vlib.report import loc_of
 
 OPMOD = "netconf::message::rpc::operation"
@@ -129,9 +129,8 @@ def run(ctx):
         "iri-string splits a URI into scheme/authority/path/query/fragment per RFC 3986",
     ]
     r1_operations(chk, fx)
-    r2_gate_tables(chk, fx)
-    r3_gates_gate(chk, fx)
-    r4_setters(chk, fx)
+    r2_check_semantics(chk, fx)
+    r34_setters(chk, fx)
     r5_who(chk, fx)
     r6_rpc(chk, fx)
     r7_uris(chk, fx)
@@ -563,6 +562,222 @@ def returns_call(k, gate):
 
 
 # ---------------------------------------------------------------------------------------------
+# R2 / R3 / R4 — decided by abstract interpretation of every public builder setter (helpers, gates and constants inlined): a setter
+# returns Ok(builder) exactly on the paths where Requirements::check(<the reference requirement for this parameter value>,
+# <the SERVER's capabilities>) was true.  Independent of where the requirement table lives and of how the check result is turned
+# into a Result.
+# ---------------------------------------------------------------------------------------------
+REQ_ADT = "netconf::capabilities::Requirements"
+DS = {"Running": NONE, "Candidate": "One(Candidate)", "Startup": "One(Startup)"}
+SETTER_REQ = {
+    ("get_config", "source"): DS,
+    ("get_config", "filter"): {"None": NONE, "Subtree": NONE, "XPath": "One(XPath)"},
+    ("get", "filter"): {"None": NONE, "Subtree": NONE, "XPath": "One(XPath)"},
+    ("edit_config", "target"): dict(DS, Running="One(WritableRunning)"),
+    ("edit_config", "error_option"): {"StopOnError": NONE, "ContinueOnError": NONE, "RollbackOnError": "One(RollbackOnError)"},
+    ("edit_config", "test_option"): {"TestThenSet": "Any(ValidateV1_0,ValidateV1_1)", "Set": "Any(ValidateV1_0,ValidateV1_1)", "TestOnly": "One(ValidateV1_1)"},
+    ("edit_config", "url"): "URL",
+    ("copy_config", "target"): dict(DS, Running="One(WritableRunning)"),
+    ("copy_config", "source"): DS,
+    ("delete_config", "target"): dict(DS, Running="REJECT"),
+    ("delete_config", "url"): "URL",
+    ("lock", "target"): DS,
+    ("validate", "source"): DS,
+    ("commit", "confirmed"): "Any(ConfirmedCommitV1_0,ConfirmedCommitV1_1)",
+    ("commit", "confirm_timeout"): "Any(ConfirmedCommitV1_0,ConfirmedCommitV1_1)",
+    ("commit", "persist"): "One(ConfirmedCommitV1_1)",
+    ("commit", "persist_id"): "One(ConfirmedCommitV1_1)",
+    ("cancel_commit", "persist_id"): "One(ConfirmedCommitV1_1)",
+}
+
+
+def req_text(fx, v):
+    """Canonical text of an abstract Requirements value: None | One(X) | Any(X,Y) | All(X,Y)."""
+    if v[0] == "const":
+        t = fx.thir.get(v[1])
+        return req_norm(t["body"]) if t is not None else "?const:" + T.short(v[1], 2)
+    if v[0] == "adt" and v[1].endswith("capabilities::Requirements"):
+        if v[2] == "None":
+            return NONE
+        inner = A.payload0(v)
+        caps = []
+        items = inner[2] if inner[0] == "term" and inner[1] == "array" else (inner,)
+        for c in items:
+            if c[0] == "adt" and c[1].endswith("capabilities::Capability"):
+                caps.append(c[2])
+            elif c[0] == "const":
+                caps.append("?" + T.short(c[1], 2))
+            else:
+                caps.append("?" + A.vstr(c)[:30])
+        if v[2] in ("Any", "All"):
+            caps = sorted(caps)
+        return "%s(%s)" % (v[2], ",".join(caps))
+    return "?" + A.vstr(v)[:60]
+
+
+def check_hook(fx):
+    def hook(fn, args, node, interp):
+        if T.short(fn, 2) == "Requirements::check" and len(args) == 2:
+            rt = req_text(fx, args[0])
+            interp.trace.append(("check", rt, args[1], node.get("sp")))
+            if rt == NONE:
+                return A.lit(True)
+            return ("term", "CHECK", (("lit", rt), args[1]))
+        return None
+    return hook
+
+
+def checks_on(p):
+    """[(requirement text, capability-set text, outcome)] of the capability checks made on a path."""
+    out = []
+    for e in p.trace:
+        if e[0] == "check":
+            key = A.vstr(("term", "CHECK", (("lit", e[1]), e[2])))
+            out.append((e[1], A.vstr(e[2]), True if e[1] == NONE else p.assume.get(key)))
+    return out
+
+
+def variants_of_enum(fx, path):
+    for it in fx.item_list:
+        if it["kind"] == "Enum" and it["def"] == path:
+            return [(v["name"], len(v.get("fields", []))) for v in it["variants"]]
+    raise F.AnchorLost("enum %s" % path)
+
+
+def param_cases(fx, ty):
+    """[(label, abstract value)] for a setter parameter type."""
+    ty = ty.strip()
+    if ty.startswith("std::option::Option<"):
+        inner = ty[len("std::option::Option<"):-1]
+        sub = param_cases(fx, inner)
+        if len(sub) == 1 and sub[0][0] == "*":
+            return [("*", ("sym", "PARAM"))]
+        return [("None", A.NONE)] + [(lab, A.some(v)) for lab, v in sub]
+    for enum in (OPMOD + "::Datastore", OPMOD + "::Filter", OPMOD + "::edit_config::TestOption", OPMOD + "::edit_config::ErrorOption"):
+        if ty == enum:
+            return [(name, ("adt", enum, name, tuple((str(i), ("sym", "PAYLOAD%d" % i)) for i in range(nf)))) for name, nf in variants_of_enum(fx, enum)]
+    return [("*", ("sym", "PARAM"))]
+
+
+def r2_check_semantics(chk, fx):
+    # Requirements::check
+    t = fx.thir_body("netconf::capabilities::Requirements::check")
+    body = T.user_body(t)
+    ms = T.find(body, "Match")
+    rows = {}
+    if ms:
+        for a in ms[0]["arms"]:
+            for v in pat_variants(a["pat"]):
+                rows[v] = T.expr_str(a["body"])
+    want = {"None": lambda s: s == "true",
+            "One": lambda s: s.startswith("Capabilities::contains("),
+            "Any": lambda s: s.startswith("Iterator::any(") and closures_are_contains(fx, t),
+            "All": lambda s: s.startswith("Iterator::all(") and closures_are_contains(fx, t)}
+    for v, pred in want.items():
+        got = rows.get(v)
+        chk.instance("C09/R2", "Requirements::check: %s => %s" % (v, got), t["def"], loc_of(t.get("sp")),
+                     holds=got is not None and pred(got), key="C09/R2 Requirements::check %s" % v)
+    b = fx.body("netconf::capabilities::Capabilities::contains")
+    cs = [c for n, bb in fx.mir.items() if n == b.name or n.startswith(b.name + "::{closure") for c in bb.calls()
+          if not c.macro and not (c.sp.get("m") or "").startswith("tracing")]
+    chk.instance("C09/R2", "Capabilities::contains = HashSet::contains(&self.inner, elem)", b.name, None,
+                 holds=len(cs) == 1 and cs[0].is_fn("HashSet::<T, S>::contains", "HashSet::<T, S, A>::contains"),
+                 key="C09/R2 Capabilities::contains")
+
+
+def r34_setters(chk, fx):
+    setters = builder_setters(fx)
+    chk.floor("C09/R4 public builder setters", len(setters), 20)
+    n_gated = n_rows = 0
+    for (mod, name, it) in sorted(setters, key=lambda x: (x[0], x[1])):
+        fn = it["def"]
+        junos = "::junos::" in fn
+        gated_param = any(any(g in ty for g in GATED_PARAM_TYPES) for ty in it["inputs"][1:])
+        ref = SETTER_REQ.get((mod, name))
+        if junos:
+            chk.instance("C09/R4", "junos::%s::Builder::%s takes no capability-gated parameter type" % (mod, name), fn,
+                         loc_of(it.get("sp")), holds=not gated_param, key="C09/R4 junos::%s::%s gated-param-unaudited" % (mod, name))
+            continue
+        if ref is None:
+            ok = (mod, name) in UNGATED_SETTERS and not gated_param
+            if not ok and not gated_param and name not in ("url",):
+                chk.instance("C09/R4", "%s::Builder::%s is not in the audited setter table" % (mod, name), fn, loc_of(it.get("sp")),
+                             holds=(mod, name) in UNGATED_SETTERS, key="C09/R4 %s::%s unaudited-setter" % (mod, name))
+            else:
+                chk.instance("C09/R4", "%s::Builder::%s needs no capability gate" % (mod, name), fn, loc_of(it.get("sp")), holds=ok,
+                             key="C09/R4 %s::%s gated-param-without-gate" % (mod, name))
+            continue
+        n_gated += 1
+        chk.analysed(fn)
+        cases = param_cases(fx, it["inputs"][1]) if len(it["inputs"]) > 1 else [("*", ("sym", "PARAM"))]
+        for (label, val) in cases:
+            want = ref if isinstance(ref, str) else ref.get(label)
+            if want is None:
+                chk.instance("C09/R2", "%s::Builder::%s(%s): parameter value has no reference row" % (mod, name, label), fn, loc_of(it.get("sp")), holds=False,
+                             key="C09/R2 %s::%s unaudited-variant %s" % (mod, name, label))
+                continue
+            n_rows += 1
+            itp = A.Interp(fx, hook=check_hook(fx), crates=("netconf",), max_paths=3000, no_inline=("Requirements::check",))
+            try:
+                paths = itp.explore(fn, args=[("sym", "BUILDER"), val])
+            except A.Undecided as ex:
+                chk.instance("C09/R4", "%s::Builder::%s(%s) could not be explored" % (mod, name, label), fn, None, holds=False,
+                             key="C09/R4 %s::Builder::%s undecided" % (mod, name), detail=str(ex)[:200])
+                continue
+            verdict(chk, fx, mod, name, label, want, fn, it, paths)
+    chk.floor("C09/R4 gated setters", n_gated, 18)
+    chk.floor("C09/R2 requirement rows (setter x parameter value)", n_rows, 30)
+
+
+def verdict(chk, fx, mod, name, label, want, fn, it, paths):
+    oks = [p for p in paths if A.is_res(p.ret) and p.ret[2] == "Ok"]
+    errs = [p for p in paths if A.is_res(p.ret) and p.ret[2] == "Err"]
+    # an iteration of a loop that merely goes round is not an exit of the function
+    other = [p for p in paths if p not in oks and p not in errs and p.end != "iter-end"]
+    who = "%s::Builder::%s(%s)" % (mod, name, label)
+    base_key = "%s::Builder::%s" % (mod, name)
+    if other:
+        chk.instance("C09/R4", "%s returns a Result on every path" % who, fn, loc_of(it.get("sp")), holds=False, key="C09/R4 %s unrecognised form %s" % (base_key, label),
+                     detail="; ".join("%s %s" % (p.end, A.vstr(p.ret)[:60] if p.ret else None) for p in other[:3]))
+        return
+    if want == "REJECT":
+        chk.instance("C09/R4", "%s is rejected outright (Err on every path)" % who, fn, loc_of(it.get("sp")), holds=bool(errs) and not oks,
+                     key="C09/R4 delete_config::target running-not-rejected")
+        return
+    if want == "URL":
+        # Ok only if the URL's scheme equals a scheme of an advertised :url capability of the SERVER
+        good = bool(oks) and bool(errs)
+        for p in oks:
+            eqs = [k for k, v in p.assume.items() if v is True and "scheme_str" in k and ("PartialEq::eq" in k or k.startswith("eq:"))]
+            good = good and any("server_capabilities" in k and ("Url" in k) for k in eqs) and not any("client_capabilities" in k for k in eqs)
+        chk.instance("C09/R3", "%s: Ok only if the URL's scheme equals a scheme of a :url capability the server advertised" % who, fn, loc_of(it.get("sp")),
+                     holds=good, key="C09/R4 %s store-not-gated-by Url::try_new" % base_key)
+        return
+    # every capability check on an Ok path is the reference one, against the server's set, and came out true
+    good, why = bool(oks), None
+    for p in oks:
+        cs = checks_on(p)
+        mine = [c for c in cs if c[0] == want]
+        foreign = [c for c in cs if c[0] != want and c[0] != NONE]
+        if want != NONE and not mine:
+            good, why = False, "Ok is reached without checking %s (checks on the path: %s)" % (want, [c[0] for c in cs] or "none")
+        if foreign:
+            good, why = False, "Ok additionally depends on %s, which RFC 6241 does not require here" % sorted({c[0] for c in foreign})
+        for c in mine:
+            if c[2] is not True:
+                good, why = False, "Ok is reached although the check of %s did not succeed" % want
+            if "server_capabilities" not in c[1] or "client_capabilities" in c[1]:
+                good, why = False, "the check is made against %s, not the server's capability set" % c[1][:60]
+    chk.instance("C09/R2", "%s requires %s (RFC 6241 reference) — and nothing else" % (who, want), fn, loc_of(it.get("sp")), holds=good,
+                 key="C09/R2 %s %s" % (base_key, label), detail=why)
+    if want != NONE:
+        # the failed check really fails the setter
+        refused = [p for p in paths if any(c[0] == want and c[2] is False for c in checks_on(p))]
+        chk.instance("C09/R3", "%s: when the server does not advertise %s the setter returns Err (nothing is stored in a usable builder)" % (who, want), fn,
+                     loc_of(it.get("sp")), holds=bool(refused) and all(p in errs for p in refused), key="C09/R4 %s store-not-gated-by %s" % (base_key, want))
+
+
+# ---------------------------------------------------------------------------------------------
 def r5_who(chk, fx):
     ops = {}
     for it in op_impls(fx):
@@ -591,21 +806,29 @@ def r5_who(chk, fx):
                     chk.instance("C09/R5", "Url constructed only in Url::try_new", name, loc_of(s.get("sp")), holds=ok,
                                  key="C09/R5 Url built-in %s" % T.strip_generics(name))
     chk.floor("C09/R5 operation/Url construction sites", n, 19)
-    # Operation::new: builder runs only under the operation-level check
-    t = fx.thir_body(OP_TRAIT + "::new")
-    s = T.expr_str(T.user_body(t)).replace(" ", "")
-    ok = "bool::then(Requirements::check(&" in s and "Context::server_capabilities(&*ctx)" in s and s.rstrip("}").endswith("?") \
-        and "Option::ok_or(" in s
-    cl = closure_text(fx, t, "")
-    ok = ok and "Builder::build(" in cl and "Builder::new(" in cl
-    body_direct = "Builder::build(" in s
-    chk.instance("C09/R5", "Operation::new = REQUIRED_CAPABILITIES.check(server caps).then(|| Builder::new(ctx).build(f)).ok_or(Err)?",
-                 t["def"], loc_of(t.get("sp")), holds=ok and not body_direct, key="C09/R5 Operation::new form", detail=None if ok else s[:240])
-    # the requirement checked is the operation's own const
-    chk.instance("C09/R5", "Operation::new checks Self::REQUIRED_CAPABILITIES", t["def"], loc_of(t.get("sp")),
-                 holds="Requirements::check(&Operation::REQUIRED_CAPABILITIES" in s or "Requirements::check(&*&Operation::REQUIRED_CAPABILITIES" in s
-                 or "check(&operation::Operation::REQUIRED_CAPABILITIES" in s,
-                 key="C09/R5 Operation::new checked-const", detail=s[:160])
+    # Operation::new: the builder runs only under the operation-level check of the operation's own REQUIRED_CAPABILITIES
+    on = OP_TRAIT + "::new"
+    t = fx.thir_body(on)
+    paths = A.Interp(fx, hook=check_hook(fx), crates=("netconf",), no_inline=("Requirements::check",)).explore(on)
+    good, why = bool(paths), None
+    seen_true = seen_false = False
+    for p in paths:
+        cs = checks_on(p)
+        built = [e for e in p.trace if e[0] in ("call", "enter") and (e[1].endswith("Builder::build") or e[1].endswith("Builder::new") or e[1] == "<indirect>")]
+        if len(cs) != 1 or "REQUIRED_CAPABILITIES" not in cs[0][0] or "server_capabilities" not in cs[0][1]:
+            good, why = False, "checks on a path: %s" % cs
+            continue
+        if cs[0][2] is True:
+            seen_true = True
+            if not built:
+                good, why = False, "check passed but the builder is not run"
+        else:
+            seen_false = True
+            if built or not (A.is_res(p.ret) and p.ret[2] == "Err" and "UnsupportedOperation" in A.vstr(p.ret)):
+                good, why = False, "check failed but %s" % ("the builder is run" if built else "the result is %s" % A.vstr(p.ret)[:80])
+    chk.instance("C09/R5", "Operation::new: the builder closure runs iff Self::REQUIRED_CAPABILITIES.check(server capabilities) is true; otherwise "
+                 "Err(UnsupportedOperation)", on, loc_of(t.get("sp")), holds=good and seen_true and seen_false, key="C09/R5 Operation::new form", detail=why)
+    chk.instance("C09/R5", "Operation::new checks Self::REQUIRED_CAPABILITIES", on, loc_of(t.get("sp")), holds=good, key="C09/R5 Operation::new checked-const")
     # no impl overrides Operation::new
     for it in op_impls(fx):
         over = [a for a in it["assoc"] if a.endswith("::new")]
